@@ -114,7 +114,7 @@ Section PostOrder.
         * intros x y [<-|Hx] Hxy; [apply Hreq', Hssin, (edge_has'' g); exact Hxy|eapply (pi_succ _ Hpi'); eauto].
         * apply Hpi'.
         * apply Hpi'.
-        * intros l1 x l2 Heq y Hxy. destruct l1 as [|a l1]; cbn in Heq.
+        * intros l1 x l2 Heq y Hxy. destruct l1 as [|a l1']; cbn in Heq.
           -- injection Heq as <- <-.
              assert (Hy : In y vis') by (apply Hreq', Hssin, (edge_has'' g); exact Hxy).
              destruct (in_dec N.eq_dec y (new ++ snd st)) as [|Hny]; auto. right.
@@ -136,7 +136,13 @@ Section PostOrder.
   Proof.
     intros Hr. unfold compute_post_order.
     assert (Hpi0 : PI ([], [])).
-    { constructor; cbn; try tauto; try constructor. intros l1 x l2 Heq. destruct l1; discriminate. }
+    { constructor; cbn [fst snd].
+      - intros x [].
+      - constructor.
+      - intros x y [].
+      - intros x [].
+      - intros x [].
+      - intros l1 x l2 Heq. destruct l1; discriminate. }
     destruct (PWL_all (fuel_v g) root ([], []) Hpi0 Hr) as [vis' [new [Hres [Hpi [Hv Hn]]]]].
     - cbn. tauto.
     - exists []. constructor.
